@@ -37,7 +37,7 @@ CHECKS["C02"] = {
     "level_text": "All n! arrival orders for n<=6 frames (n<=8 in thorough) x closing frame absent/last x all 2^n reader-drain schedules are executed against the in-package stream buffer and compared with a sequence-order model after every arrival; larger n, big payloads and sequence numbers around 2^32/2^63/2^64 are sampled. Arrival through several connections at once is explored by a concurrent sub-check: a backlog of 1..3000 frames is parked, then the gap filler and the frames that follow (data or the closing frame) are released together from 2-4 goroutines on real cores; the reader must get the payloads in sequence order and end-of-stream only after all of them.",
     "level_note": "White-box use of streamBuffer.nextRecvSeq (to reach high sequence numbers) and of the pipe's buffered length (to drain without blocking). Frames are delivered exactly once, the closing frame has the highest number (what a sender produces).",
     "rule": "Exhaustive: every permutation of n<=6 (thorough 8) frames, closing frame absent or numbered last, every subset of arrivals after which the reader drains; the receive buffer is reused and overwritten between arrivals. "
-            "Sampled: rapid-drawn n<=200, order kinds random/reverse/nearly-sorted/rotate, sizes 1..40000, base seq in {0,2^32-n/2,2^63-n/2,2^64-n,...}. Non-trivial = arrival order differs from sequence order; distinct = distinct permutations (exhaustive) / distinct scenarios (sampled).",
+            "Sampled: rapid-drawn n<=200, order kinds random/reverse/nearly-sorted/rotate, sizes 1..40000, base seq in {0,2^32-n/2,2^63-n/2,2^64-n,...}. Non-trivial = arrival order differs from sequence order; distinct = distinct permutations (exhaustive) / distinct scenarios (sampled). Sampled also draws the reader's buffer sizes (64 KiB, exactly half or all of what is readable, 1/100/4096/200000 bytes).",
     "assumptions": ["each frame is delivered exactly once", "the stream-closing frame carries the highest sequence number of its stream"],
     "jobs": [
         {"pkg": MUX, "run": "^TestVerif_C02_Exhaustive$"},
@@ -159,7 +159,7 @@ CHECKS["C20"] = {
     "technique": "rapid-generated option presence masks and values rendered both as JSON file and as key=value; string (with the \\= escapes of plugin hosts); oracle = table transcribed from README.md + cross-syntax equality; random strings for the no-crash part",
     "level_text": "Each generated configuration is parsed through both front ends (results must be equal) and processed; every documented option (NumConn<=0, KeepAlive seconds, StreamTimeout default, Transport/BrowserSig selection observed through the transport actually created, CDN url, AlternativeNames filtering, encryption names) is compared with an independent transcription of the README; incomplete/invalid configurations must yield an error, arbitrary strings must not panic. BrowserSig is checked in effect on every connection attempt of sessions set up under connection faults (each ClientHello must have the shape of a fresh hello of the configured browser; a failed chrome attempt may be retried as firefox, as the client documents). StreamTimeout is also checked in effect on the virtual clock: the value parsed from either syntax is handed to RouteTCP over a test network; a proxy connection whose first data comes before the limit must stay usable in both directions at any later time (up to 5x the period), one that stays silent longer must be closed.",
     "level_note": "The README transcription in harness/internal__client/c20_test.go (c20Table) is the trusted oracle; values containing ';', '\"' or '\\\\' are outside the option-string domain (the front end has no escaping for them once unescaped) and are not generated.",
-    "rule": "rapid draws presence (p=0.4..0.95 per option) and representative values for the 19 options incl. NumConn in {-7,-1,0,1,2,4,8}, KeepAlive in {-5,0,1,15,30,3600}, mixed-case names, base64 keys with '=' padding, empty alternative names; every case is non-trivial (both syntaxes + processing); distinct = distinct (presence mask, escaping) pairs. ServerNames: layer-3 scenarios with ServerName from {random, RANDOM, rAnDoM, www.bing.com, a.example.org, randomised.example} and NumConn 0..6; non-trivial = random name over >=3 connections. ProgramNames: ck-client main() with ServerName and 0..4 AlternativeNames from {bing.com, cloudflare.com, github.com, a.example.org, random, RANDOM, Random, randomised.example}, 4..10 proxied connections (singleplex 3 of 4: one session, i.e. one draw, per connection); non-trivial = >=2 distinct names seen.",
+    "rule": "rapid draws presence (p=0.4..0.95 per option) and representative values for the 19 options incl. NumConn in {-7,-1,0,1,2,4,8}, KeepAlive in {-5,0,1,15,30,3600}, mixed-case names, base64 keys with '=' padding, empty alternative names; every case is non-trivial (both syntaxes + processing); distinct = distinct (presence mask, escaping) pairs. ServerNames: layer-3 scenarios with ServerName from {random, RANDOM, rAnDoM, www.bing.com, a.example.org, randomised.example} and NumConn 0..6; non-trivial = random name over >=3 connections. ProgramNames: ck-client main() with ServerName and 0..4 AlternativeNames from {bing.com, cloudflare.com, github.com, a.example.org, random, RANDOM, Random, randomised.example}, 4..10 proxied connections (singleplex 3 of 4: one session, i.e. one draw, per connection); non-trivial = >=2 distinct names seen. SingleplexUDP: the UDP rig with NumConn from {0,-1}, 2..4 proxy clients with 2..8 datagrams each; every case non-trivial.",
     "assumptions": ["README.md client section is the specification"],
     "jobs": [
         {"pkg": CLIENT, "run": "^TestVerif_C20_Config$", "checks": {"quick": 6000, "thorough": 600000}, "shards": {"thorough": 16}},
